@@ -30,7 +30,11 @@ RULE = ("kind ns (modelled): a seeded random parser of 1-3 typed arguments under
         "unknown key). 20 % of the x cases are containers (Dict[str,_], List, Tuple[_, ...], "
         "Tuple[_, int], Dict[str, List[_]]) whose items are a registered / restricted / path / Enum type or a class spec, bare "
         "or Optional, with None items next to real ones, and for class specs a declared default holding entries under the same "
-        "keys (same or another class, its own init_args); all channels. Every x case also runs the dump leg: dump(cfg), parse_string of it compared with cfg modulo '__path__' "
+        "keys (same or another class, its own init_args); all channels. 10 % of the x cases are str-accepting options (str, Optional[str], "
+        "List/Dict/Tuple/Set of str, Union[str, float|int|bool] in both orders, Any, Literal of look-alikes) holding strings that a "
+        "YAML 1.1 / custom-float resolver could take for a non-string (signed and unsigned exponents, 1_000, 0x1F, 0o7, 1:30, .5, "
+        "5., .inf, yes/No/ON, NULL/~, dates, indicator characters, ...), given as objects or double-quoted in text. Every x case "
+        "also runs the dump leg: dump(cfg), parse_string of it compared with cfg modulo '__path__' "
         "entries, and the dump of that compared byte for byte. non-trivial = the first parse is accepted and some value changed representation or "
         "is a container; distinct = distinct (parser, input)")
 TRUSTED = [
@@ -620,17 +624,19 @@ def gen_x_nested(rng):
         mk = lambda: rng.choice(vals)  # noqa: E731
     et = ["union", [elem, NON]] if optional else elem
     item = lambda: NONE if optional and rng.random() < 0.4 else mk()  # noqa: E731
-    shape = rng.choice(["dict", "dict", "list", "tuplevar", "tuple", "dictlist"])
+    shape = rng.choice(["dict", "dict", "dict", "list", "tuplevar", "tuple", "dictlist"])
     dflt = NONE
     if shape == "dict":
         t = ["dict", False, et]
         keys = rng.sample(ITEM_KEYS, rng.randint(1, 3))
         v = D([(S(k), item()) for k in keys])
-        if use_sub and rng.random() < 0.6:
+        if optional and len(keys) > 1 and rng.random() < 0.7:       # a real item next to a None item
+            v = D([(S(keys[0]), mk()), (S(keys[1]), NONE)] + v[1][2:])
+        if use_sub and rng.random() < 0.8:
             # a declared default with entries under the same keys (same or another class, its own init_args)
             dkeys = [k for k in ITEM_KEYS if k in keys or rng.random() < 0.3]
             dflt = D([(S(k), NONE if optional and rng.random() < 0.3 else spec_value(rng, fam, full_path=True)[0]) for k in dkeys])
-            if rng.random() < 0.5:           # same class as the input for one common key, other init_args
+            if rng.random() < 0.7:           # same class as the input for one common key, other init_args
                 for kv in v[1]:
                     if kv[1][0] == "dict":
                         cls = kv[1][1][0][1][1].split(".")[-1]
@@ -676,6 +682,18 @@ TEXT_TYPES = [STR, ["union", [STR, NON]], ["list", STR], ["dict", False, STR], [
               ["lit", [S("yes"), S("1e3"), S("-1e3")]]]
 
 
+def render_q(v):
+    """like render, every str double-quoted (so that it stays a str in YAML/JSON text)"""
+    k = v[0]
+    if k == "str":
+        return json.dumps(v[1])
+    if k in ("list", "tuple", "set"):
+        return "[" + ", ".join(render_q(x) for x in v[1]) + "]"
+    if k == "dict":
+        return "{" + ", ".join("%s: %s" % (render_q(a), render_q(b)) for a, b in v[1]) + "}"
+    return render(v)
+
+
 def gen_x_text(rng):
     t = rng.choice(TEXT_TYPES)
     pick = lambda: S(rng.choice(LOOKALIKE))  # noqa: E731
@@ -697,11 +715,11 @@ def gen_x_text(rng):
     if v[0] == "str" and ch == "args" and v[1].startswith("-") and False:
         ch = "object"
     case = {"kind": "x", "decls": [{"key": "k", "ty": t, "default": dflt}], "channel": ch}
-    quoted = json.dumps(v[1]) if v[0] == "str" else render(v)
+    quoted = render_q(v)
     if ch == "object":
         case["input"] = D([(S("k"), v)])
     elif ch == "args":
-        case["input"] = ["--k=" + (v[1] if v[0] == "str" else render(v))]
+        case["input"] = ["--k=" + (v[1] if v[0] == "str" else quoted)]
     elif ch == "string":
         case["input"] = "k: " + quoted + "\n"
     else:
@@ -716,9 +734,9 @@ def gen_x(rng):
         return gen_x_multi(rng)
     if r < 0.4:
         return gen_x_path(rng)
-    if r < 0.6:
+    if r < 0.65:
         return gen_x_nested(rng)
-    if r < 0.72:
+    if r < 0.75:
         return gen_x_text(rng)
     r = rng.random()
     if r < 0.25:
@@ -803,6 +821,18 @@ def curated_x():
         one_x(["union", [["posint"], ["decimal"]]], "object", D([(S("k"), O("decimal", "0.1"))])),
         one_x(["union", [COLOR, ["range"]]], "string", "k: 'range(1, 5)'"),
         one_x(["union", [BOOL, ["enum", "Sz", ["s", "m", "true"]]]], "object", D([(S("k"), ["enum", "Sz", "true"])])),
+        # a class spec next to a None item in a dict-valued option whose default has the same key and class with other init_args
+        {"kind": "x", "decls": [{"key": "k", "ty": ["dict", False, ["union", [["sub", "Net"], NON]]],
+                                "default": D([(S("pre"), D([(S("class_path"), S("c10_classes.MlpNet")),
+                                                            (S("init_args"), D([(S("dropout"), F(0.5))]))])), (S("post"), NONE)])}],
+         "channel": "string", "input": "k: {pre: {class_path: c10_classes.MlpNet, init_args: {hidden: 5}}, post: null}\n"},
+        # None items inside containers under Optional[registered type]
+        one_x(["list", ["union", [["timedelta"], NON]]], "object", D([(S("k"), L([NONE, S("1:00:00")]))])),
+        one_x(["dict", False, ["union", [["path", "dw"], NON]]], "object", D([(S("k"), D([(S("a"), NONE), (S("b"), S("dir1"))]))])),
+        # strings that look like floats / ints / bools / null to a YAML 1.1 resolver, in str-accepting options
+        one_x(STR, "object", D([(S("k"), S("-1e3"))])), one_x(["list", STR], "object", D([(S("k"), L([S("+2E10"), S("1_000"), S("0x1F")]))])),
+        one_x(["dict", False, STR], "object", D([(S("k"), D([(S("a"), S("-1.5e3")), (S("b"), S("yes"))]))])),
+        one_x(["union", [STR, NON]], "args", ["--k=1:30"]), one_x(STR, "string", 'k: "~"\n'),
         # subclass-typed options with defaults under prefix-related names, the later one switched to another class
         {"kind": "x", "decls": [{"key": "model", "ty": ["sub", "Net"], "default": ["lazy", "ConvNet", [["kernel", I(5)]]]},
                                 {"key": "model_ema", "ty": ["sub", "Net"], "default": ["lazy", "ConvNet", [["kernel", I(7)]]]},
@@ -834,7 +864,7 @@ def search(rng, tier, broken):
 
 
 def generate(rng, tier):
-    n_ns, n_x = (1800, 500) if tier == "quick" else (16000, 3200)
+    n_ns, n_x = (1800, 700) if tier == "quick" else (16000, 3200)
     cases = curated() + curated_x()
     cases += [gen_ns(rng) for _ in range(n_ns)]
     cases += [gen_x(rng) for _ in range(n_x)]
